@@ -74,7 +74,7 @@ def run_views(chk, model, cases, suite):
             desc += [("str", side), ("prefix", side)]
             impl += [got_str, got_prefix]
             reqs += [(5, sx), (4, sx)]
-            chk.hist("prefix", "raise-%d" % got_prefix[1] if got_prefix[0] else "ok")
+            chk.hist("prefix", "raise-%s" % (got_prefix[1],) if got_prefix[0] else "ok")
             grammar = c.grammar
             if grammar and got_prefix[0] == 0:
                 # by construction: the text before the first wildcard
@@ -91,7 +91,7 @@ def run_views(chk, model, cases, suite):
                 impl.append(got)
                 reqs.append((2, sx + [canon(path)]))
                 matched = got[0] == 0 and got[1]
-                chk.hist("match", "raise-%d" % got[1] if got[0] else ("match" if got[1] else "none"))
+                chk.hist("match", "raise-%s" % (got[1],) if got[0] else ("match" if got[1] else "none"))
                 if matched:
                     d = {common.l2s(k): (common.l2s(v[0]) if v else None) for k, v in got[1][0]}
                     if not any("*" in v for _, v in side[1]) and not any(
@@ -156,7 +156,7 @@ def run_expand(chk, model):
         sx = ml.side_sx(side)
         got = ml.impl_str(side)
         chk.count(("expand", side))
-        chk.hist("expand", "raise-%d" % got[1] if got[0] else "ok")
+        chk.hist("expand", "raise-%s" % (got[1],) if got[0] else "ok")
         full = ml.render(atoms, env, [])
         # expansion: the rendering, or the cut at the first variable without a value
         cut = ml.render_prefix(atoms, env)
@@ -435,6 +435,7 @@ def run(chk, runner_ok):
     run_views(chk, model, [ml.gen_case(rng, loose=True) for _ in range(chk.n(1500, 10000))], "VIEWS-loose")
     ml.run_stateful(chk, model, chk.n(500, 5000))
     run_adjacent(chk, model)
+    ml.run_equality(chk, model, chk.n(600, 6000))
     run_expand(chk, model)
     run_android(chk, model)
     run_mozpath(chk, model)
